@@ -98,6 +98,7 @@ func genData(r *lib.Rng, n int) []uint16 {
 type recCtx struct {
 	nsamp, npre, nb   int
 	div, offset       int
+	bench             bool // end to end: lengths in force are applied by the driver, Odd marks a wrong-length record
 	wrongLen, wrongNb bool // allow records the LJH 2.2 / OFF writer refuses
 	extremePre        bool
 }
@@ -118,7 +119,7 @@ func genRec(r *lib.Rng, cx recCtx) Rec {
 		}
 	}
 	rec := Rec{Frame: genFrame(r, cx.div, cx.offset), Ns: genTime(r), Pre: cx.npre, Data: genData(r, n),
-		Mean: genF64(r), Delta: genF64(r), Resid: genF64(r)}
+		Mean: genF64(r), Delta: genF64(r), Resid: genF64(r), Odd: cx.bench && n != cx.nsamp}
 	if r.Chance(1, 6) {
 		rec.Pre = r.Range(0, n)
 	}
@@ -427,7 +428,35 @@ func genBenchCase(r *lib.Rng, id int64, tier string) Case {
 	if nsamp > 128 {
 		budget = 6
 	}
+	pulse := func() Op {
+		// record lengths asked for through SourceControl.ConfigurePulseLengths: another pre-trigger length with the same
+		// record length (the change that an LJH 2.2 file cannot show), other lengths, the lengths in force, invalid ones
+		ns, np := nsamp, npre
+		switch r.Intn(8) {
+		case 0, 1, 2:
+			if nsamp >= 5 {
+				np = r.Range(3, nsamp-1)
+			} else {
+				ns, np = r.Range(4, 40), 3
+			}
+		case 3, 4:
+			ns = r.Range(4, 64)
+			np = r.Range(3, ns-1)
+		case 5:
+			// unchanged
+		case 6:
+			ns, np = r.Pick([]int{0, -1, 2, 3, 5}), r.Pick([]int{0, -2, 1, 2, 5, 9})
+		default:
+			ns, np = nsamp+r.Range(1, 5), npre
+		}
+		return Op{Op: "pulse", NS: ns, NP: np}
+	}
+	pulseChance := r.Pick([]int{0, 0, 1, 2, 3}) // per case: how eager the operator is to change lengths (x/10 after a PAUSE, x/20 anywhere)
 	for i := 0; i < nops; i++ {
+		if pulseChance > 0 && r.Chance(pulseChance, 20) {
+			c.Ops = append(c.Ops, pulse())
+			continue
+		}
 		k := r.Intn(20)
 		switch {
 		case !active && k < 12:
@@ -455,7 +484,7 @@ func genBenchCase(r *lib.Rng, id int64, tier string) Case {
 			}
 		case k < 12 || (k < 14 && budget > 0):
 			ch := r.Intn(nchan)
-			cx := recCtx{nsamp: nsamp, npre: npre, nb: chans[ch].NBases, div: c.SfDiv, offset: chans[ch].SfOff,
+			cx := recCtx{bench: true, nsamp: nsamp, npre: npre, nb: chans[ch].NBases, div: c.SfDiv, offset: chans[ch].SfOff,
 				wrongLen: malformed || r.Chance(1, 8), wrongNb: malformed && r.Chance(1, 2)}
 			n := r.Range(1, 5)
 			if r.Chance(1, 12) {
@@ -477,6 +506,9 @@ func genBenchCase(r *lib.Rng, id int64, tier string) Case {
 			c.Ops = append(c.Ops, Op{Op: "flush", Ch: r.Intn(nchan)})
 		case k == 15 || k == 16:
 			c.Ops = append(c.Ops, Op{Op: "pause"})
+			if pulseChance > 0 && r.Chance(pulseChance, 10) { // PAUSE, change lengths, UNPAUSE, more records
+				c.Ops = append(c.Ops, pulse(), Op{Op: "unpause"})
+			}
 		case k == 17:
 			c.Ops = append(c.Ops, Op{Op: "unpause"})
 		case k == 18:
@@ -580,6 +612,27 @@ func corpus() []Case {
 			{Op: "pub", Ch: 1, Recs: []Rec{simpleRec(2, 2000, 1, ramp(4, 2), 2), simpleRec(3, 3000, 1, ramp(4, 3), 3)}},
 			{Op: "pub", Ch: 2, Recs: []Rec{simpleRec(4, 4000, 1, ramp(4, 4))}},
 			{Op: "stop"}}},
+		// record lengths changed through the RPC entry point: refused while a cycle is open (writing or paused), so all
+		// records of a file have the header's lengths; accepted between cycles (new lengths in the next headers, projectors gone)
+		{Kind: "bench", Source: "Triangle", SfDiv: 1, NPre: 100, NSamp: 400, RateNum: 100000, RateDen: 1, Chans: []Chan{
+			{Name: "chan1", Number: 1, Rows: 1, Cols: 2, Row: 0, Col: 0}, {Name: "chan2", Number: 2, Rows: 1, Cols: 2, Row: 0, Col: 1}}, Ops: []Op{
+			{Op: "start", T22: true, T3: true},
+			{Op: "pub", Ch: 0, Recs: []Rec{simpleRec(1, 1000, 0, ramp(4, 1)), simpleRec(2, 2000, 0, ramp(4, 2))}},
+			{Op: "pulse", NS: 400, NP: 250},
+			{Op: "pause"}, {Op: "pulse", NS: 400, NP: 250}, {Op: "unpause"},
+			{Op: "pub", Ch: 0, Recs: []Rec{simpleRec(3, 3000, 0, ramp(4, 3)), simpleRec(4, 4000, 0, ramp(4, 4))}},
+			{Op: "stop"},
+			{Op: "pulse", NS: 8, NP: 0}, {Op: "pulse", NS: 8, NP: 8}, {Op: "pulse", NS: 8, NP: 5}, {Op: "pulse", NS: 8, NP: 5},
+			{Op: "start", T22: true, T3: true},
+			{Op: "pub", Ch: 1, Recs: []Rec{simpleRec(5, 5000, 0, ramp(4, 5)), {Frame: 6, Ns: 6000, Data: ramp(7, 1), Coefs: []uint64{}, Odd: true}}},
+			{Op: "stop"}}},
+		{Kind: "bench", Source: "Abaco", SfDiv: 64, NPre: 3, NSamp: 6, RateNum: 1000000, RateDen: 1, Chans: []Chan{
+			{Name: "chan1", Number: 1, Rows: 2, Cols: 1, Row: 1, Col: 0, NBases: 1, Proj: fbits(1, 0, 0, 0, 0, 0), Basis: fbits(1, 0, 0, 0, 0, 0), Desc: "m"}}, Ops: []Op{
+			{Op: "start", TOFF: true}, {Op: "pub", Ch: 0, Recs: []Rec{simpleRec(1, 1000, 0, ramp(6, 1), 2.5)}},
+			{Op: "pause"}, {Op: "pulse", NS: 6, NP: 4}, {Op: "unpause"},
+			{Op: "pub", Ch: 0, Recs: []Rec{simpleRec(2, 2000, 0, ramp(6, 2), 3.5)}}, {Op: "stop"},
+			{Op: "pulse", NS: 6, NP: 4}, {Op: "start", TOFF: true}, {Op: "start", T22: true},
+			{Op: "pub", Ch: 0, Recs: []Rec{simpleRec(3, 3000, 0, ramp(6, 3), 4.5)}}, {Op: "stop"}}},
 		// sub-frame divisions 0 (Triangle, Roach) with a non-zero offset, divisions 1; a pixel name, channel name, source name
 		// and model description full of format verbs, quotes, backslashes and non-ASCII text
 		{Kind: "bench", Source: "Tri%dangle 100% \"q\" \\ \u00b5", SfDiv: 0, NPre: 1, NSamp: 4, RateNum: 156250, RateDen: 1, UseMap: true, Chans: []Chan{
